@@ -442,6 +442,83 @@ def inline_stmts(callee, call, recv=None):
     return pre + body, ret
 
 
+def _own_level(stmts, kinds) -> bool:
+    """is there a statement of one of `kinds` (Break / Continue) that belongs to the loop whose body `stmts` is?"""
+    def rec(node):
+        for ch in ast.iter_child_nodes(node):
+            if isinstance(ch, kinds):
+                return True
+            if isinstance(ch, (ast.For, ast.While, ast.FunctionDef, ast.AsyncFunctionDef, ast.Lambda, ast.ClassDef)):
+                if any(isinstance(x, kinds) for s in getattr(ch, "orelse", []) for x in ast.walk(s)):
+                    return True
+                continue
+            if rec(ch):
+                return True
+        return False
+    return any(isinstance(s, kinds) or rec(s) for s in stmts)
+
+
+def inline_generator_loop(callee, loop: ast.For, recv=None):
+    """`for T in gen(args): BODY` with `gen` a generator function that has exactly one `yield E` statement  ->  the statements of `gen`
+    (parameters renamed to the arguments, locals made unique, as inline_stmts does) with that statement replaced by `T = E; BODY`.
+    A generator runs interleaved with its consumer: the consumer's body executes exactly where the `yield` stands, once per value, so
+    the loop nest of the producer with the consumer's body inside is the same computation in the same order.  Refused (-> None) when
+    the equivalence needs more than that: several yields / yield from / return in the producer, a yield inside try / with, a
+    `break` or `else` on the consumer loop, or a consumer `continue` where the yield is not the last statement of the producer's
+    innermost loop."""
+    if not isinstance(callee, ast.FunctionDef) or loop.orelse or not isinstance(loop.iter, ast.Call):
+        return None
+    a = callee.args
+    if a.vararg or a.kwarg or a.posonlyargs:
+        return None
+    own = []
+
+    def scan(node, inside):
+        """-> False when the producer has a shape that is not handled"""
+        for ch in ast.iter_child_nodes(node):
+            if isinstance(ch, (ast.FunctionDef, ast.AsyncFunctionDef, ast.Lambda, ast.ClassDef)):
+                continue
+            if isinstance(ch, (ast.YieldFrom, ast.Await, ast.Global, ast.Nonlocal, ast.Return)):
+                return False
+            if isinstance(ch, ast.Yield):
+                own.append((ch, inside))
+            if not scan(ch, inside or isinstance(ch, (ast.Try, ast.With, ast.AsyncWith))):
+                return False
+        return True
+    if not scan(callee, False) or len(own) != 1 or own[0][1] or own[0][0].value is None:
+        return None
+    if _own_level(loop.body, (ast.Break,)):
+        return None
+    res = inline_stmts(callee, loop.iter, recv)
+    if res is None:
+        return None
+    body, ret = res
+    # the yield must be a whole statement; find the list that holds it
+    holder = []
+
+    def find(stmts, in_loop_tail):
+        for i, st in enumerate(stmts):
+            if isinstance(st, ast.Expr) and isinstance(st.value, ast.Yield):
+                holder.append((stmts, i, in_loop_tail and i == len(stmts) - 1))
+                continue
+            for fld in ("body", "orelse", "finalbody"):
+                b = getattr(st, fld, None)
+                if isinstance(b, list) and b and isinstance(b[0], ast.stmt) and not isinstance(st, (ast.FunctionDef, ast.ClassDef, ast.AsyncFunctionDef)):
+                    find(b, fld == "body" and isinstance(st, (ast.For, ast.While)))
+    find(body, False)
+    if len(holder) != 1:
+        return None                       # the yield is an operand (`x = yield e`): not a plain producer
+    stmts, i, last_in_loop = holder[0]
+    if _own_level(loop.body, (ast.Continue,)) and not last_in_loop:
+        return None
+    bind = ast.Assign(targets=[loop.target], value=stmts[i].value.value)
+    ast.copy_location(bind, loop)
+    stmts[i:i + 1] = [bind] + list(loop.body)
+    for b in body:
+        ast.fix_missing_locations(b)
+    return body
+
+
 def inline_stmt_calls(func, resolve, max_depth: int = 3):
     """resolve(call) -> (callee FunctionDef, receiver expr | None) | None.  Whole-statement calls are replaced by the callee's
     statements."""
@@ -464,6 +541,16 @@ def inline_stmt_calls(func, resolve, max_depth: int = 3):
             if isinstance(st, ast.Try):
                 for h in st.handlers:
                     h.body = expand(h.body, depth)
+            if isinstance(st, ast.For) and isinstance(st.iter, ast.Call) and depth < max_depth:
+                # a loop over a generator helper: the producer's statements with the consumer's body where the yield stands
+                r = resolve(st.iter)
+                if r is not None and r[0] is not func:
+                    new = inline_generator_loop(r[0], st, r[1])
+                    if new is not None:
+                        for b in new:
+                            ast.copy_location(b, st) if not hasattr(b, "lineno") else None
+                        out.extend(expand(new, depth + 1))
+                        continue
             c = value_of(st)
             if isinstance(c, ast.Call) and depth < max_depth:
                 r = resolve(c)
@@ -816,6 +903,17 @@ class _ConstGetattr(ast.NodeTransformer):
         return n
 
 
+    def visit_Expr(self, n):
+        # `setattr(x, "name", v)` as a statement (the name may come from a row of an unrolled table) is the store `x.name = v`
+        self.generic_visit(n)
+        c = n.value
+        if isinstance(c, ast.Call) and isinstance(c.func, ast.Name) and c.func.id == "setattr" and len(c.args) == 3 and not c.keywords \
+                and isinstance(c.args[1], ast.Constant) and isinstance(c.args[1].value, str) and c.args[1].value.isidentifier() \
+                and not any(isinstance(a, ast.Starred) for a in c.args):
+            return ast.copy_location(ast.Assign(targets=[ast.Attribute(value=c.args[0], attr=c.args[1].value, ctx=ast.Store())], value=c.args[2]), n)
+        return n
+
+
 def const_getattr(node):
     return ast.fix_missing_locations(_ConstGetattr().visit(node))
 
@@ -961,9 +1059,63 @@ def index_loops_to_enumerate(func):
     return func
 
 
+# ------------------------------------------------------------------------------------------- bound-method aliases
+
+def inline_method_aliases(func):
+    """`g = a.b.get` (a plain attribute chain on a name, bound once at the top level of the function, the names of the chain never
+    re-bound in the function) and afterwards only CALLED (`g(x)`): every call is the method call `a.b.get(x)` it abbreviates.  Hoisting
+    an attribute lookup changes nothing a rule is about; the rules see the receiver again."""
+    cands = {}
+    for i, st in enumerate(func.body):
+        if isinstance(st, ast.Assign) and len(st.targets) == 1 and isinstance(st.targets[0], ast.Name) and isinstance(st.value, ast.Attribute):
+            b = st.value
+            while isinstance(b, ast.Attribute):
+                b = b.value
+            if isinstance(b, ast.Name):
+                cands.setdefault(st.targets[0].id, []).append((i, st, b.id))
+    if not cands:
+        return func
+    rebound = {}
+    for n in ast.walk(func):
+        if isinstance(n, ast.Name) and isinstance(n.ctx, (ast.Store, ast.Del)):
+            rebound[n.id] = rebound.get(n.id, 0) + 1
+        elif isinstance(n, (ast.FunctionDef, ast.AsyncFunctionDef, ast.ClassDef)) and n is not func:
+            rebound[n.name] = rebound.get(n.name, 0) + 1
+    params = {a.arg for a in func.args.posonlyargs + func.args.args + func.args.kwonlyargs}
+    dead = []
+    for name, lst in cands.items():
+        if len(lst) != 1 or rebound.get(name, 0) != 1 or name in params:
+            continue
+        i, st, base = lst[0]
+        if base in rebound:
+            continue                      # the receiver is a local / a re-bound parameter: it may change between the alias and a call
+        loads = [n for n in ast.walk(func) if isinstance(n, ast.Name) and n.id == name and isinstance(n.ctx, ast.Load)]
+        calls = [n for n in ast.walk(func) if isinstance(n, ast.Call) and isinstance(n.func, ast.Name) and n.func.id == name]
+        if not loads or len(loads) != len(calls):
+            continue
+        # every use comes after the binding: none inside the statements before it
+        if any(isinstance(n, ast.Name) and n.id == name for s_ in func.body[:i] for n in ast.walk(s_)):
+            continue
+        # the chain's intermediate attributes must not be stored in the function (self.a = .. between alias and call)
+        chain_attrs = set()
+        b = st.value.value
+        while isinstance(b, ast.Attribute):
+            chain_attrs.add(b.attr)
+            b = b.value
+        if any(isinstance(n, ast.Attribute) and isinstance(n.ctx, (ast.Store, ast.Del)) and n.attr in chain_attrs for n in ast.walk(func)):
+            continue
+        for c in calls:
+            c.func = ast.copy_location(copy.deepcopy(st.value), c.func)
+        dead.append(st)
+    func.body = [s_ for s_ in func.body if not any(s_ is d for d in dead)] or [ast.Pass()]
+    ast.fix_missing_locations(func)
+    return func
+
+
 def normalize_function(func, tables: dict | None = None):
     """the local normalisations (no knowledge of other functions needed); `tables`: module-level literal tables (module_tables)"""
     try:
+        inline_method_aliases(func)
         specialise_dispatch(func)
         inline_local_defs(func)
         index_loops_to_enumerate(func)
